@@ -217,6 +217,25 @@ def seq3(o1: int, s1: int, m1: int, o2: int, s2: int, m2: int, o3: int, s3: int,
     return ok
 
 
+PAIRS = [(a, b) for a in range(NP) for b in range(a + 1, NP)]       # 36 selector pairs
+NPAIR = len(PAIRS)
+
+
+def seq_aao(pi: int, m: int, o3: int, s3: int, same: bool) -> bool:
+    """
+    pre: 0 <= pi < NPAIR and pi % 12 == PARTNO and 0 <= m < 4 and 0 <= o3 < 4 and 0 <= s3 < NP
+    post: _
+    """
+    pi, m, o3, s3 = pick(pi, NPAIR), pick(m, 4), pick(o3, 4), pick(s3, NP)
+    same = pickb(same)
+    a, b = PAIRS[pi]
+    ops = [(0, a, m), (0, b, m if same else (m + 1) % 4), (o3, s3, m)]
+    with Native():
+        ok = run_seq(ops)
+    V.reached()
+    return ok
+
+
 def objseq(o1: int, m1: int, o2: int, m2: int, o3: int, m3: int, g: int) -> bool:
     """
     pre: 4 <= o1 < 8 and 4 <= o2 < 8 and 4 <= o3 < 8 and 0 <= m1 < 3 and 0 <= m2 < 3 and 0 <= m3 < 3 and 0 <= g < NP
